@@ -177,10 +177,11 @@ def _oserror(code, what):
 class _FaultyFile(object):
     """Delegating file wrapper; write/close/read faults are decided by IO.armed."""
 
-    def __init__(self, real, mode):
+    def __init__(self, real, mode, raw=False):
         self._f = real
         self._mode = mode
         self._lines = 0
+        self._raw = raw      # opened unbuffered in binary mode: write() may legally accept only part of the data
 
     # -- write side
     def write(self, data):
@@ -197,6 +198,12 @@ class _FaultyFile(object):
             return len(data)
         if getattr(self, "_deferred", False):
             return len(data)
+        if a and a["kind"] == "K13" and self._raw:
+            # short write: an unbuffered binary write accepts a prefix and says so in its return value; no error
+            cut = max(1, int(len(data) * a.get("frac", 0.5))) if len(data) > 1 else len(data)
+            IO.fired = "K13"
+            IO.armed = None
+            return self._f.write(data[:cut])
         if a and a["kind"] == "K7":
             cut = int(len(data) * a.get("frac", 0.5))
             self._f.write(data[:cut])
@@ -285,7 +292,8 @@ def _open_seam(real_open):
                     raise _oserror("EIO", "open for read")
         if not writing:
             IO.opened += 1
-        return _FaultyFile(real_open(file, mode, *a, **k), mode)
+        buffering = k.get("buffering", a[0] if a else -1)
+        return _FaultyFile(real_open(file, mode, *a, **k), mode, raw=("b" in mode and buffering == 0))
     opener._verif_site = "open"
     return opener
 
